@@ -18,12 +18,7 @@ def leafTree : Val → Tree
 
 theorem printInt_strOk (i : Int) : strOk (printInt i) = true := by
   simp only [strOk, Bool.and_eq_true, beq_iff_eq, Bool.not_eq_true']
-  refine ⟨⟨strip_of_no_ws _ (printInt_no_ws i), printInt_no_brace i⟩, ?_⟩
-  simp only [List.contains_eq_mem, decide_eq_false_iff_not]
-  intro hm
-  rcases printInt_chars i _ hm with h | ⟨d, hd, h⟩
-  · exact absurd h (by decide)
-  · exact (digitChar_ne d hd).2.2.2.2.2.2.2.2 h.symm
+  exact ⟨strip_of_no_ws _ (printInt_no_ws i), printInt_no_brace i⟩
 
 theorem bool_strOk : strOk pyTrue = true ∧ strOk pyFalse = true := by decide
 
@@ -447,14 +442,11 @@ theorem simpleName_strOk {a : Str} (h : simpleName a = true) : strOk a = true :=
   simp only [simpleName, Bool.and_eq_true, List.all_eq_true] at h
   simp only [strOk, Bool.and_eq_true, beq_iff_eq, Bool.not_eq_true', List.contains_eq_mem,
     decide_eq_false_iff_not]
-  refine ⟨⟨strip_of_no_ws _ ?_, ?_⟩, ?_⟩
+  refine ⟨strip_of_no_ws _ ?_, ?_⟩
   · intro c hc
     have := h.2 c hc
     simp [okChar] at this
-    exact this.1.1.2
-  · intro hm
-    have := h.2 _ hm
-    simp [okChar] at this
+    exact this.1.2
   · intro hm
     have := h.2 _ hm
     simp [okChar] at this
@@ -472,14 +464,9 @@ theorem wfCell_pairs {sfs skvs} {nd : List SPair} (hne : nd ≠ []) (hok : SubOk
   · intro e he
     obtain ⟨p, hp, rfl⟩ := List.mem_map.mp he
     obtain ⟨h1, h2, h3⟩ := hfacts p hp
-    refine ⟨by simp [subElem], ?_, ?_⟩
-    · intro x hx
-      simp only [subElem, List.mem_cons, List.not_mem_nil, or_false] at hx
-      rcases hx with rfl | rfl
-      · exact (strOk_spec h1).2.2
-      · exact (strOk_spec h2).2.2
-    · intro _
-      simp [subElem, h3]
+    refine ⟨by simp [subElem], ?_⟩
+    intro _
+    simp [subElem, h3]
   · intro _ hl
     rw [List.getLast?_map] at hl
     cases hg : nd.getLast? with
